@@ -90,7 +90,21 @@ pub enum Shape {
     HMap(Box<Shape>),
     KMap(Box<Shape>, Box<Shape>),
     // <<< a_c04
+    // >>> w_c02 (wave 5): an enum with data-carrying variants (externally tagged, as serde-derive generates)
+    DEnum { names: &'static [&'static str], variants: Vec<VShape> },
+    // <<< w_c02
 }
+
+// >>> w_c02 (wave 5)
+/// the payload of one enum variant
+#[derive(Debug)]
+pub enum VShape {
+    Unit,
+    Newtype(Box<Shape>),
+    Tuple(Vec<Shape>),
+    Struct { fields: Vec<Field>, names: &'static [&'static str] },
+}
+// <<< w_c02
 
 thread_local! {
     static INTERN: RefCell<HashMap<String, &'static str>> = RefCell::new(HashMap::new());
@@ -214,6 +228,45 @@ impl<'a> P<'a> {
                 Shape::TupS(v)
             }
             // <<< a_c04
+            // >>> w_c02: denum(<hexname>:u, <hexname>:n:<shape>, <hexname>:t:tup(..), <hexname>:s:struct(..))
+            "denum" => {
+                self.eat(b'(');
+                let mut names = Vec::new();
+                let mut variants = Vec::new();
+                while self.peek() != b')' {
+                    names.push(self.hexname());
+                    self.eat(b':');
+                    let k = self.word();
+                    variants.push(match k {
+                        "u" => VShape::Unit,
+                        "n" => {
+                            self.eat(b':');
+                            VShape::Newtype(Box::new(self.shape()))
+                        }
+                        "t" => {
+                            self.eat(b':');
+                            match self.shape() {
+                                Shape::Tup(v) => VShape::Tuple(v),
+                                _ => panic!("shape syntax: tuple variant wants tup(..)"),
+                            }
+                        }
+                        "s" => {
+                            self.eat(b':');
+                            match self.shape() {
+                                Shape::Struct { fields, names, token: false } => VShape::Struct { fields, names },
+                                _ => panic!("shape syntax: struct variant wants struct(..)"),
+                            }
+                        }
+                        _ => panic!("shape syntax: variant kind {:?}", k),
+                    });
+                    if self.peek() == b',' {
+                        self.i += 1;
+                    }
+                }
+                self.eat(b')');
+                Shape::DEnum { names: intern_list(names), variants }
+            }
+            // <<< w_c02
             "opt" | "seq" | "map" | "prop" => {
                 self.eat(b'(');
                 let s = Box::new(self.shape());
@@ -323,6 +376,9 @@ pub enum Value {
     /// the size hints seen before every next_element / next_key call, then the value
     Hint(Vec<Option<usize>>, Box<Value>),
     // <<< a_c04
+    // >>> w_c02
+    Variant(&'static str, Box<Value>),
+    // <<< w_c02
 }
 
 pub fn show_value(v: &Value, o: &mut String) {
@@ -423,6 +479,13 @@ pub fn show_value(v: &Value, o: &mut String) {
             o.push(')');
         }
         // <<< a_c04
+        // >>> w_c02
+        Value::Variant(n, x) => {
+            let _ = write!(o, "(variant {} ", hex(n.as_bytes()));
+            show_value(x, o);
+            o.push(')');
+        }
+        // <<< w_c02
     }
 }
 
@@ -507,6 +570,9 @@ impl<'de, 's> DeserializeSeed<'de> for Seed<'s> {
             Shape::HMap(s) => d.deserialize_map(HMapV(s)),
             Shape::KMap(k, v) => d.deserialize_map(KMapV(k, v)),
             // <<< a_c04
+            // >>> w_c02
+            Shape::DEnum { names, variants } => d.deserialize_enum("DynDEnum", names, DEnumV { names, variants }),
+            // <<< w_c02
         }
     }
 }
@@ -795,6 +861,73 @@ impl<'de> Visitor<'de> for EnumV {
         Ok(Value::Enum(v))
     }
 }
+
+// >>> w_c02 (wave 5): what serde-derive generates for `enum E { A, B(T), C(T, U), D { x: T } }`: variant_seed with the
+// variant identifier visitor, then unit_variant / newtype_variant_seed / tuple_variant(n, tuple visitor: exactly n
+// elements, end not probed) / struct_variant(fields, struct visitor)
+struct DEnumV<'s> {
+    names: &'static [&'static str],
+    variants: &'s [VShape],
+}
+impl<'de, 's> Visitor<'de> for DEnumV<'s> {
+    type Value = Value;
+    fn expecting(&self, f: &mut fmt::Formatter) -> fmt::Result {
+        f.write_str("enum DynDEnum")
+    }
+    fn visit_enum<A: de::EnumAccess<'de>>(self, a: A) -> Result<Value, A::Error> {
+        use serde::de::VariantAccess;
+        let (v, acc) = a.variant_seed(VariantSeed(self.names))?;
+        let i = self.names.iter().position(|x| *x == v).expect("variant index");
+        let payload = match &self.variants[i] {
+            VShape::Unit => {
+                acc.unit_variant()?;
+                Value::Unit
+            }
+            VShape::Newtype(s) => acc.newtype_variant_seed(Seed(s))?,
+            VShape::Tuple(ss) => acc.tuple_variant(ss.len(), TupV(ss))?,
+            VShape::Struct { fields, names } => acc.struct_variant(names, StructV { fields, token: false })?,
+        };
+        Ok(Value::Variant(v, Box::new(payload)))
+    }
+}
+
+/// real serde-derived enums (kind de.enum.real): the anchor of the runtime interpreter above
+#[derive(Deserialize, Debug)]
+enum RealEnum {
+    #[serde(rename = "rgb")]
+    Rgb(u8, u8, u8),
+    #[serde(rename = "hsv")]
+    Hsv(f64, f64, f64),
+    #[serde(rename = "named")]
+    Named { a: u8, b: String },
+    #[serde(rename = "num")]
+    Num(u32),
+    #[serde(rename = "list")]
+    List(Vec<String>),
+    #[serde(rename = "plain")]
+    Plain,
+}
+#[derive(Deserialize, Debug)]
+struct RealRoot {
+    color: RealEnum,
+}
+pub const REAL_ENUM_SHAPE: &str = "struct(636f6c6f72:denum(726762:t:tup(u8,u8,u8),687376:t:tup(f64,f64,f64),6e616d6564:s:struct(61:u8,62:str),6e756d:n:u32,6c697374:n:seq(str),706c61696e:u))";
+fn show_real(r: Result<RealRoot, jomini::Error>) -> String {
+    let x = match r {
+        Ok(x) => x,
+        Err(e) => return err_class(&e),
+    };
+    let (n, p) = match x.color {
+        RealEnum::Rgb(a, b, c) => ("rgb", format!("(seq (u {}) (u {}) (u {}))", a, b, c)),
+        RealEnum::Hsv(a, b, c) => ("hsv", format!("(seq (f64 {:016x}) (f64 {:016x}) (f64 {:016x}))", a.to_bits(), b.to_bits(), c.to_bits())),
+        RealEnum::Named { a, b } => ("named", format!("(struct (61 (u {})) (62 (str {})))", a, hex(b.as_bytes()))),
+        RealEnum::Num(a) => ("num", format!("(u {})", a)),
+        RealEnum::List(v) => ("list", format!("(seq{})", v.iter().map(|s| format!(" (str {})", hex(s.as_bytes()))).collect::<String>())),
+        RealEnum::Plain => ("plain", "(unit)".to_string()),
+    };
+    format!("(struct (636f6c6f72 (variant {} {})))", hex(n.as_bytes()), p)
+}
+// <<< w_c02
 
 struct AnyV;
 impl<'de> DeserializeSeed<'de> for AnyV {
@@ -1386,6 +1519,13 @@ pub fn dispatch(kind: &str, a: &[&str]) -> Option<String> {
                 format!("{} {}", show_stats(&st), if r.is_ok() { "ok" } else { "err" })
             }
         }
+        // >>> w_c02: the serde-derived RealRoot { color: RealEnum } through the same entry points
+        ("de.enum.real", [path, enc, h]) => {
+            let data = unhex(h);
+            let mut st = None;
+            show_real(run_text::<RealRoot>(path, parse_enc(enc), &data, &mut st))
+        }
+        // <<< w_c02
         // scalar level (per-function correspondence with Serde.text_scalar / Serde.bin_scalar)
         ("de.sc.text", [shape, h]) => {
             let sh = parse_shape(&format!("struct(78:{})", shape));
